@@ -9,5 +9,5 @@ open A2l.Mg
 #print axioms refs_renamed
 #print axioms refs_provenance
 #print axioms no_dangling
-#print axioms shared_refs_counterexample
-#print axioms refs_follow_partial
+#print axioms shared_refs_fixed
+#print axioms shared_refs_shared
